@@ -211,6 +211,35 @@ GROUPS = {
         nontrivial='all schedules',
         functions=['Clients::{register, disconnect}', 'Client::start_shutdown'],
     ),
+    # second line behind the Verus units base_keys / custom_addr: the real iroh-base crate through its public API
+    'base_keys_cx': dict(
+        cargo='base_keys', binary='verif-base-keys', unit='(cargo) base_keys/src/main.rs', props=['C02'], files='iroh-base/src/key.rs, endpoint_addr.rs',
+        bounds=dict(quick=['48', '0'], thorough=['2000', '0']),
+        space='{0} key pairs derived from seeds 0..{0}: every supported encoding of the public key, the secret key and a signature and back (bytes, slice, string, hex in both '
+              'cases, base32 in both cases, z-base-32, postcard, JSON, verifying key); a family of 74 mutations of each of 4 valid encodings (truncated, extended by 1-3 '
+              'characters, padded, case changed, 16 replacement characters at 4 positions, empty) given to PublicKey::from_str, PublicKey::from_z32 and SecretKey::from_str; '
+              '16 pseudo-random 32-byte strings per key given to PublicKey::from_bytes; sign/verify against a flipped bit, a shorter message, another key, a modified '
+              'signature; three custom addresses and an endpoint address per key through binary, string, postcard, JSON, and truncated binary forms',
+        nontrivial='all key pairs',
+        functions=['PublicKey::as_bytes', 'PublicKey::as_verifying_key', 'PublicKey::deserialize', 'PublicKey::fmt_short', 'PublicKey::from_bytes', 'PublicKey::from_str',
+                   'PublicKey::from_verifying_key', 'PublicKey::from_z32', 'PublicKey::try_from_array', 'PublicKey::try_from_slice', 'PublicKey::verify', 'SecretKey::from_array',
+                   'SecretKey::from_bytes', 'SecretKey::from_str', 'SecretKey::public', 'SecretKey::sign', 'SecretKey::to_bytes', 'SecretKey::try_from_slice', 'Signature::from_bytes',
+                   'Signature::to_bytes', 'Signature::try_from_slice', 'decode_base32_hex',
+                   'CustomAddr::data', 'CustomAddr::from_bytes', 'CustomAddr::from_parts', 'CustomAddr::id', 'CustomAddr::to_vec', 'CustomAddrBytes::as_bytes', 'CustomAddrBytes::copy_from_slice', 'CustomAddrBytes::len'],
+    ),
+    # second line behind the Verus unit signed_packet: the real iroh-dns crate through its public API
+    'signed_packet_cx': dict(
+        cargo='signed_packet', binary='verif-signed-packet', unit='(cargo) signed_packet/src/main.rs', props=['C32', 'C37'], files='iroh-dns/src/pkarr.rs',
+        bounds=dict(quick=['3', '0'], thorough=['24', '0']),
+        space='{0} signing keys x 6 record sets (none, one, three incl. a value with `=`, the apex name, a nested name with a 200-byte value, an empty string): the wire form and '
+              'the relay payload form and back; EVERY single-byte modification of the wire form with three masks, every truncation, three extensions, a relay payload under '
+              'another key — each also through the unchecked constructors with inspection of the result; more_recent_than on every pair of the packets built and on a pair with '
+              'equal timestamps',
+        nontrivial='packets with at least one record',
+        functions=['SignedPacket::as_bytes', 'SignedPacket::encoded_packet', 'SignedPacket::from_bytes', 'SignedPacket::from_bytes_unchecked', 'SignedPacket::from_parts_unchecked',
+                   'SignedPacket::from_relay_payload', 'SignedPacket::more_recent_than', 'SignedPacket::public_key', 'SignedPacket::signature', 'SignedPacket::timestamp',
+                   'SignedPacket::to_relay_payload', 'Timestamp::as_micros', 'Timestamp::from_be_bytes', 'Timestamp::from_micros', 'Timestamp::to_be_bytes', 'signable'],
+    ),
     # second line behind the Verus unit builder_bind
     'builder_bind_bx': dict(
         unit='builder_bind.rs', props=['C20'],
